@@ -15,5 +15,9 @@ CONSTANTS
     ExplainGap = TRUE
 INIT Init
 NEXT Next
-INVARIANTS TypeOK PropertyInv CodeDiffClasses DevModelFaithful FixFaithful FixDiffClasses VectorsOK
+\* AllInv = PropertyInv /\ CodeDiffClasses /\ DevModelFaithful /\ FixFaithful /\ FixDiffClasses on
+\* verdict vectors computed once per state; the operator forms can be listed instead
+\* (INVARIANTS TypeOK PropertyInv CodeDiffClasses DevModelFaithful FixFaithful FixDiffClasses VectorsOK).
+\* Set ExplainEdge / ExplainZero / ExplainGap to FALSE to get a witness of that difference class.
+INVARIANTS TypeOK AllInv
 CHECK_DEADLOCK FALSE
